@@ -17,7 +17,9 @@ def main(tier, replay=None):
                   required=("InitPick", "LoopPick", "Complete", "Finish", "Kill", "Restart"))
     S.model_check(sc.chk, sc.work, "N4W2S3", {"N": 4, "Workers": 2, "Steps": 3, "MaxPn": 12}, INV, PROPS)
     if not q:
-        S.model_check(sc.chk, sc.work, "N4W3S4_vary", {"N": 4, "Workers": 3, "Steps": 4, "MaxPn": 14, "VaryInit": True}, INV, PROPS, timeout=3000)
+        # (N4W3S4 from every initial arrangement does not finish in 50 minutes)
+        S.model_check(sc.chk, sc.work, "N4W2S3_vary", {"N": 4, "Workers": 2, "Steps": 3, "MaxPn": 12, "VaryInit": True}, INV, PROPS, timeout=3400)
+        S.model_check(sc.chk, sc.work, "N4W3S3_vary", {"N": 4, "Workers": 3, "Steps": 3, "MaxPn": 12, "VaryInit": True}, INV, PROPS, timeout=3400)
         S.model_check(sc.chk, sc.work, "N5W4S3", {"N": 5, "Workers": 4, "Steps": 3, "MaxPn": 14}, INV, PROPS, timeout=3000, required=("InitPick", "Complete", "Finish"))
         S.model_check(sc.chk, sc.work, "N4W2S3_w12", {"N": 4, "Workers": 2, "Steps": 3, "MaxPn": 12, "WSet": "W12"}, INV, PROPS, timeout=3000)
     # liveness: with fair picks and completions the run ends, from every initial arrangement
@@ -25,7 +27,7 @@ def main(tier, replay=None):
     S.liveness_check(sc.chk, sc.work, "N3W1S4", {"N": 3, "Workers": 1, "Steps": 4, "MaxPn": 12})
     if not q:
         S.liveness_check(sc.chk, sc.work, "N4W2S3", {"N": 4, "Workers": 2, "Steps": 3, "MaxPn": 12}, timeout=3000)
-        S.liveness_check(sc.chk, sc.work, "N4W3S4", {"N": 4, "Workers": 3, "Steps": 4, "MaxPn": 14}, timeout=3000)
+        S.liveness_check(sc.chk, sc.work, "N4W3S3", {"N": 4, "Workers": 3, "Steps": 3, "MaxPn": 12}, timeout=3000)
     S.sort_states(sc, "N4W2S3", {"N": 4, "Workers": 2, "Steps": 3, "MaxPn": 12})
     S.sort_states(sc, "N4W3S3", {"N": 4, "Workers": 3, "Steps": 3, "MaxPn": 12})
     if not q:
